@@ -107,6 +107,7 @@ def env():
     deep = 3
     for n in range(1, deep + 1):
         rows += [''.join(t) for t in itertools.product(ALPHA, repeat=n)]
+    rows += ['{', '}', '{{', '}}', '{name}', '{{name}}', 'x{', 'x{{', '{0}', '{escape}', 'a{b}c', '\\', '{}', '{"a": 1}']
     rows += ['n', 'N', 'an', 'a\nb', '\n', 'a\tb', 't', 'r', '0', 'é', 'É', 'aé%', 'x[a]', '[', 'ab%_\\', '\U0001f600a', 'A_%']
     ids = {}
     for r in rows:
@@ -211,7 +212,8 @@ def report(ctx, d, op, a, row, got, want, how):
 
 def gen_args(ctx):
     rng = ctx.rng
-    args = ['', '%', '_', '\\', "'", '"', '\\%', '%%', "a'b", 'a\\', '\\\\', 'A', 'b', '\n', 'a\n', '\t', '\r', '\x08', '\x00',
+    args = ['{', '}', '{{', '}}', '{}', '{0}', '{escape}', '{{name}}', '{"a": 1', 'x{{', '{{x', 'a{b}c', '%(x)s', '%s', '$1', '?',
+            '', '%', '_', '\\', "'", '"', '\\%', '%%', "a'b", 'a\\', '\\\\', 'A', 'b', '\n', 'a\n', '\t', '\r', '\x08', '\x00',
             'é', '[a]', "E'", 'ab%_\\', '\U0001f600']
     try:
         import os
@@ -226,7 +228,7 @@ def gen_args(ctx):
     maxlen = 3 if (ctx.tier == 'thorough' or ctx.deep) else 2
     for n in range(1, maxlen + 1):
         args += [''.join(t) for t in itertools.product(ALPHA, repeat=n)]
-    wide = ALPHA + ['\n', '\t', '\r', '\x08', '\x00', 'n', 't', '0', 'é', '[', ']', 'E', ' ', '\U0001f600', '-', ';']
+    wide = ALPHA + ['\n', '\t', '\r', '\x08', '\x00', 'n', 't', '0', 'é', '[', ']', 'E', ' ', '\U0001f600', '-', ';', '{', '}', '{', '}']
     for _ in range(ctx.budget(1200, 36000)):
         n = rng.choice([1, 2, 3, 3, 4, 6])
         args.append(''.join(rng.choice(ALPHA if rng.random() < 0.5 else wide) for _ in range(n)))
@@ -338,6 +340,7 @@ def run(ctx):
                 ctx.compare('reference LIKE matcher: model = python transcription', desc, ''.join(mres),
                             ''.join('1' if ref_like(dc[0], dc[1], r, False) else '0' for r in rs))
     run_columns(ctx)
+    run_entry_points(ctx)
     # the recorded finding's witness, replayed on the implementation every run
     for d in ('mysql', 'postgres'):
         dc = decode_clause(d, impl_clause('startswith', '\n', d))
@@ -434,6 +437,86 @@ def run_columns(ctx):
                                         name, op, ma, ('raises ' + g) if isinstance(g, str) else
                                         ('%s row %r, literally it should %s' % ('selects' if row in g else 'does not select', row,
                                                                                 'not be selected' if row in g else 'be selected'))), desc)
+
+
+
+# ------------------------------------------------------------------ every public entry point that reaches the LIKE helpers
+def entry_points(cls, col='c'):
+    """(name, expression carrying startswith/endswith/contains, source class or None for alias, items builder)"""
+    sb = env()['sb']
+    t = cls.sqlmeta.table
+    al = sb.Alias(cls, 'al')
+    return [('T.q.col', lambda: getattr(cls.q, col), None),
+            ('func.LOWER(T.q.col)', lambda: sb.func.LOWER(getattr(cls.q, col)), None),
+            ('func.COALESCE(T.q.col, <str>)', lambda: sb.func.COALESCE(getattr(cls.q, col), ''), None),
+            ('table.<t>.col', lambda: getattr(getattr(sb.table, t), col), None),
+            ('SQLConstant', lambda: sb.SQLConstant('%s.%s' % (t, col)), None),
+            ('Alias(T).q.col', lambda: getattr(al.q, col), al),
+            ('T.q.col + <str> (SQLOp)', lambda: getattr(cls.q, col) + '', None)]
+
+
+def run_entry_points(ctx):
+    e = cols_env()
+    sb = env()['sb']
+    rng = ctx.rng
+    name0, cls = e['classes'][0]            # the TEXT declaration
+    m = e['ids'][name0]
+    conn = cls._connection
+    args = ['', '%', '_', '\\', "'", 'a', 'B', '%a', 'a%', '_a', '\\%', '\\\\', "a'", ' ', 'a ', '%%', '\\_', 'a_', '__']
+    for _ in range(ctx.budget(25, 2000)):
+        args.append(''.join(rng.choice(COL_ALPHA) for _ in range(rng.randint(1, 3))))
+    for a in args:
+        for op in OPS:
+            for ename, mk, al in entry_points(cls):
+                desc = {'dialect': 'sqlite', 'entry': ename, 'op': op, 'arg': enc(a)}
+                ctx.case(('entry', ename, op, a), nontrivial=any(c in a for c in '%_\\'), kind='entry:' + ename)
+
+                def selected(x):
+                    try:
+                        cond = build(op, mk(), x)
+                        if al is not None:
+                            q = sb.Select([al.q.id], where=cond)
+                        else:
+                            q = sb.Select([cls.q.id], where=cond, staticTables=[cls.sqlmeta.table])
+                        return set(m[r[0]] for r in conn.queryAll(conn.sqlrepr(q)))
+                    except Exception as ex:
+                        return 'error:%s' % sqlo.exc_name(ex)
+                got = selected(a)
+                want = set(r for r in m.values() if py_pred(op, a, r, True))
+                if got != want:
+                    ma = c02.minimise(a, lambda x: selected(x) != set(r for r in m.values() if py_pred(op, x, r, True)))
+                    g = selected(ma)
+                    w = set(r for r in m.values() if py_pred(op, ma, r, True))
+                    row = '' if isinstance(g, str) else sorted(g ^ w, key=lambda r: (len(r), r))[0]
+                    ctx.oracle_fail('C17:sqlite:entry %s:%s:arg=%s:row=%s' % (ename, op, enc(ma), enc(row)),
+                                    'through %s, %s(%r) %s' % (ename, op, ma, ('raises ' + g) if isinstance(g, str) else
+                                                               ('%s row %r, literally it should %s' % (
+                                                                   'selects' if row in g else 'does not select', row,
+                                                                   'not be selected' if row in g else 'be selected'))), desc)
+                # ---- the other dialects: same clause shape as through the column helper (pattern literal + ESCAPE literal)
+                if al is not None:
+                    continue
+                for d in DIALECTS:
+                    if d == 'sqlite':
+                        continue
+                    try:
+                        text = sb.sqlrepr(build(op, mk(), a), d)
+                        ref = impl_clause(op, a, d)
+                    except Exception as ex:
+                        text, ref = 'error:%s' % type(ex).__name__, None
+                    tt, tr = c02.ref_tokens(d, text), (None if ref is None else c02.ref_tokens(d, ref))
+                    if tr is None:
+                        continue
+                    # from the LIKE keyword on, the two clauses must be token-identical
+                    def tail(ts):
+                        if ts is None or ('W', 'LIKE') not in ts:
+                            return None
+                        return ts[ts.index(('W', 'LIKE')):]
+                    if tail(tt) != tail(tr):
+                        ctx.oracle_fail('C17:%s:entry %s:%s:clause-differs-from-column-helper' % (d, ename, op),
+                                        'through %s, %s(%r) renders %r for %s; the column helper renders %r' % (ename, op, a, text, d, ref),
+                                        dict(desc, dialect=d))
+                        break
 
 
 def replay(case):
